@@ -5,7 +5,7 @@ import os, sys, json, time, hashlib, collections, itertools, multiprocessing, tr
 import z3
 from . import core, build, symgo, bfamily
 from .core import PathCtl, Unsupported, Outcome, check_valid, is_sym, conc
-from .gossa import (Machine, Ptr, Cell, Slice, Iface, Closure, GoMap, GoPanic, GoExit, SymName, go_str, cp, MapIter)
+from .gossa import (Machine, Ptr, Cell, Slice, Iface, Closure, GoMap, GoPanic, GoExit, SymName, SymDigits, go_str, cp, MapIter)
 from .symgo import (PARSER, MODEL, MOD, GRAMMAR, ANTLR, Snapshot, make_machine, to_pystr, filemap_to_py, TOK_TYPE, TOK_LINE, TOK_TEXT,
                     TOK_INDEX, TOK_CHANNEL, TOK_START, TOK_STOP)
 
@@ -58,10 +58,10 @@ def prog_consts(prog):
     return _CONSTS
 
 
-def decorate(M, snap, sym_lines=False, sym_names=False, text=''):
+def decorate(M, snap, sym_lines=False, sym_names=False, text='', sym_digits=False):
     """make token lines / identifier texts symbolic.  returns (assumptions, info)"""
     asm = []
-    info = {'lines': {}, 'names': {}}
+    info = {'lines': {}, 'names': {}, 'digits': {}}
     toks = []
     st = M.load(snap.stream)
     # CommonTokenStream: channel, fetchedEOF, index, tokenSource, tokens, lazyInit
@@ -122,8 +122,49 @@ def decorate(M, snap, sym_lines=False, sym_names=False, text=''):
                 asm.append(z3.Or([t == k for k in ids]))
                 bt[TOK_TEXT] = SymName(t, ids, M.names)
                 info['names'][i] = (t, text_of_orig(bt, text), bt[TOK_START], bt[TOK_STOP])
+    if sym_digits:
+        # the size N of a `char[N]` / `zchar[N]` becomes a 64-bit variable (any literal of up to 18 digits)
+        for i in sorted(sym_digits):
+            bt = toks[i].v[0]
+            orig = int(text_of_orig(bt, text))
+            v = z3.BitVec('size_%d' % i, 64)
+            asm.append(v >= 0)
+            asm.append(v < 10 ** 18)
+            bt[TOK_TEXT] = SymDigits(v, orig)
+            M.ctl.spread_for[v.get_id()] = ((orig,), SIZE_SPREAD)
+            info['digits'][i] = (v, orig, bt[TOK_START], bt[TOK_STOP])
     info['tokens'] = toks
     return asm, info
+
+
+# where the compiler prints N into text the path forks over these boundary values of N (those feasible on the path)
+SIZE_SPREAD = (0, 1, 127, 128, 255, 256, 32767, 32768, 65535, 65536, (1 << 31) - 1, 1 << 31, (1 << 32) - 1, 1 << 32, 1 << 48, 10 ** 18 - 1)
+
+
+def size_tokens(dump, text):
+    """indices of the DIGITS tokens that are the size of a fixed string (`char[` N `]`, `zchar[` N `]`)"""
+    objs = {o['id']: o for o in dump['objs']}
+    st = objs[dump['stream']['p']]
+    tl = None
+    for f in st['fields']:
+        if isinstance(f, dict) and 's' in f:
+            tl = objs[f['s']]
+    out = []
+    prev = None
+    for k, it in enumerate((tl.get('items') or []) if tl else []):
+        bt = objs[it['v']['p']]['fields'][0]['struct']
+        s = text[bt[TOK_START]:bt[TOK_STOP] + 1] if isinstance(bt[TOK_START], int) and bt[TOK_START] >= 0 else ''
+        if prev in ('char[', 'zchar[') and s.isdigit():
+            out.append(k)
+        prev = s
+    return out
+
+
+def render_digits(text, info, model):
+    rs = list(text)
+    for i, (v, orig, a, b) in sorted(info['digits'].items(), key=lambda e: -e[1][2]):
+        rs[a:b + 1] = list(str(model.eval(v, model_completion=True).as_long()))
+    return ''.join(rs)
 
 
 def token_types(dump):
@@ -349,6 +390,56 @@ def c11_text(t, dump, tier):
                     res.append(BFinding('C11', 'gen:' + g, t.tag, panic_sym(gp), '%s' % gp, {'text': text}))
     except Unsupported as u:
         stats['inconclusive'].append('generate: %s' % str(u)[:150])
+    # (d) the size N of each `char[N]` / `zchar[N]` is a 64-bit solver variable: visitor and the six generators run with every
+    # comparison / allocation on N decided by z3 over 0 <= N < 10^18; where the code prints N into text the path is pinned to a
+    # witness value (counted: those paths cover one value of N each)
+    for tok in size_tokens(dump, text)[:2 if tier == 'quick' else 6]:
+        try:
+            holder = {}
+
+            def sized(c, tok=tok):
+                c.allow_concretise = True
+                M = make_machine(c, fuel=3_000_000)
+                snap = Snapshot(prog, dump).load()
+                asm, info = decorate(M, snap, sym_digits={tok}, text=text)
+                holder['info'] = info
+                for a in asm:
+                    c.assume(a)
+                m = M.call(PARSER + '.VerifVisit', [snap.tree])
+                if len(syntax_errors(M, m)):
+                    return 'diagnosed'
+                panics = []
+                big = False
+                for g in GENS:
+                    try:
+                        M.call(PARSER + '.VerifGenerate', [go_str(g), m])
+                    except Unsupported as u:
+                        if 'strings.Repeat builds' not in str(u):
+                            raise
+                        big = True                    # gigabytes of text: this value of N is outside the bound, the other paths go on
+                    except GoPanic as gp:
+                        panics.append((g, gp))        # each generator is judged on its own: a crash of one does not hide the next
+                if panics:
+                    return ('panics', panics)
+                return 'too-large' if big else 'generated'
+            ctl, paths = explore([], sized, 64)
+            stats['pinned_size_paths'] = stats.get('pinned_size_paths', 0) + ctl.concretised
+            for (kind, val), pc in paths:
+                stats['paths'] += 1
+                stats['size_paths'] = stats.get('size_paths', 0) + 1
+                if kind == 'ok' and val == 'too-large':
+                    stats['size_paths_outside_bound'] = stats.get('size_paths_outside_bound', 0) + 1
+                plist = [('visit', val)] if kind == 'panic' else (val[1] if kind == 'ok' and isinstance(val, tuple) and val[0] == 'panics' else [])
+                for g, gp in plist:
+                    sym = 'size:' + g + ':' + panic_sym(gp)
+                    if sym in seen:
+                        continue
+                    seen.add(sym)
+                    mdl = model_of(pc)
+                    wit = render_digits(text, holder['info'], mdl) if mdl is not None else text
+                    res.append(BFinding('C11', 'size', t.tag, g + ':' + panic_sym(gp), '%s' % gp, {'text': wit}))
+        except Unsupported as u:
+            stats['inconclusive'].append('size: %s' % str(u)[:150])
     return res, stats
 
 
@@ -367,6 +458,9 @@ def c11_confirm(findings, tier):
         elif loc == 'visit':
             ok = bool(n.get('panic'))
             what = n.get('panic')
+        elif loc == 'size':
+            ok = bool(n.get('panic')) or any(g.get('panic') for g in n.get('gens') or [])
+            what = n.get('panic') or [g.get('panic') for g in n.get('gens') or []]
         else:
             ok = any(g.get('panic') for g in n.get('gens') or [])
             what = [g.get('panic') for g in n.get('gens') or []]
@@ -1250,6 +1344,9 @@ def main(prop, tier, update_known=False, replay=None):
         return EXTRA[prop](prop, tier, update_known, replay)
     symgo.repo_prog()
     fam = family_for(prop, tier)
+    only = os.environ.get('VERIF_ONLY')          # debugging aid (never set by a registered command): restrict to texts by tag prefix
+    if only:
+        fam = [t for t in fam if any(t.tag.startswith(o) for o in only.split(','))]
     dumps = symgo.native_dump([t.text for t in fam])
     _CTX['items'] = list(zip(fam, dumps))
     jobs = [(prop, tier, i) for i in range(len(fam))]
